@@ -53,6 +53,7 @@ func main() {
 	crashed := fs.String("crashed", "", "comma-separated case indexes known to crash the process (not executed)")
 	progressFile := fs.String("progress", "", "file receiving the index of the running case")
 	replay := fs.String("replay", "", "replay file (one case)")
+	corpus := fs.String("corpus", "", "JSONL file of cases that run first (minimised past failures, witnesses of known findings)")
 	fs.Parse(os.Args[2:])
 
 	out = bufio.NewWriterSize(os.Stdout, 1<<20)
@@ -64,7 +65,7 @@ func main() {
 			defer f.Close()
 		}
 	}
-	cfg := Config{Seed: *seed, N: *n, Profile: *profile, Reps: *reps, Crashed: parseSkips(*crashed), Replay: *replay}
+	cfg := Config{Seed: *seed, N: *n, Profile: *profile, Reps: *reps, Crashed: parseSkips(*crashed), Replay: *replay, Corpus: *corpus}
 
 	switch op {
 	case "match":
@@ -87,6 +88,25 @@ type Config struct {
 	Reps    int
 	Crashed map[int]bool
 	Replay  string
+	Corpus  string
+}
+
+// corpusLines returns the non-empty lines of the corpus file.
+func corpusLines(path string) [][]byte {
+	if path == "" {
+		return nil
+	}
+	data, err := os.ReadFile(path)
+	if err != nil {
+		return nil
+	}
+	var acc [][]byte
+	for _, l := range strings.Split(string(data), "\n") {
+		if strings.TrimSpace(l) != "" {
+			acc = append(acc, []byte(l))
+		}
+	}
+	return acc
 }
 
 // ops registers further runners (one file per property family).
